@@ -70,7 +70,7 @@ def main():
     rp = os.path.join(HERE, 'selfcheck', 'mutation_results.json')
     old = {}
     if only and os.path.exists(rp):
-        old = {(r['property'], r['file'], r['old'], r['new']): r for r in json.load(open(rp))}
+        old = {(r['property'], r['file'], r['old'], r['new']): r for r in json.load(open(rp)) if r['property'] not in only}
     for r in res.values():
         old[(r['property'], r['file'], r['old'], r['new'])] = r
     allr = list(old.values()) if only else [res[i] for i in sorted(res)]
